@@ -217,19 +217,16 @@ def judge_interface(e, o):
                                                                             else "")
     seen = f"observed {o['phase']}" + (f" {o['exc']}: {o['msg']}" if o["exc"] else "") + \
            (f" equal_to_reference={o['equal']} maxdiff={o['maxdiff']}" if o["phase"] == "solved" else "")
-    vis = "+".join(e["visible"]) or "-"
     if o["ref_phase"] != "solved":
         findings.append((dict(finding="reference-run-failed", solver=e["solver"], gf=e["gf"], st=e["st"], nt=e["nt"]),
                          f"sdeint on the plain (f, g) module failed: {o['ref_msg']}"))
         return findings, drifts
     if e["outcome"] == "solves":
         if o["phase"] != "solved":
-            findings.append((dict(finding="supported-interface-fails", visible=vis, solver=e["solver"], gf=e["gf"],
-                                  nt=e["nt"], exc=o["exc"]),
+            findings.append((dict(finding="supported-interface-fails", solver=e["solver"], gf=e["gf"], exc=o["exc"]),
                              f"a combination of methods the solver accepts does not solve; {what}; {seen}"))
         elif not o["equal"] or not o["finite"]:
-            findings.append((dict(finding="interfaces-differ", visible=vis, solver=e["solver"], gf=e["gf"], nt=e["nt"],
-                                  st=e["st"]),
+            findings.append((dict(finding="interfaces-differ", solver=e["solver"], gf=e["gf"], nt=e["nt"]),
                              f"solution not bit-identical to the (f, g) run under the same Brownian motion; {what}; "
                              f"{seen}"))
         else:
@@ -242,8 +239,7 @@ def judge_interface(e, o):
                 # computes the same thing through another route: allowed by the property, not by the model
                 drifts.append(f"no explicit error but a solution equal to the reference ({what})")
             else:
-                findings.append((dict(finding="silent-fallback", visible=vis, solver=e["solver"], gf=e["gf"],
-                                      nt=e["nt"], missing=e["missing"]),
+                findings.append((dict(finding="silent-fallback", solver=e["solver"], gf=e["gf"], missing=e["missing"]),
                                  f"a needed method is missing, yet something else was computed instead of an explicit "
                                  f"error; {what}; {seen}"))
         else:
@@ -253,13 +249,13 @@ def judge_interface(e, o):
                     drifts.append(f"explicit error names `{other}` (also missing) instead of `{e['missing']}` ({what}; "
                                   f"{seen})")
                 else:
-                    findings.append((dict(finding="error-not-explicit", visible=vis, solver=e["solver"], gf=e["gf"],
-                                          nt=e["nt"], missing=e["missing"], exc=o["exc"]),
+                    findings.append((dict(finding="error-not-explicit", solver=e["solver"], gf=e["gf"],
+                                          missing=e["missing"], exc=o["exc"]),
                                      f"the error does not name the missing method `{e['missing']}`; {what}; {seen}"))
     elif e["outcome"] == "contract":
         if o["phase"] == "solved":
-            findings.append((dict(finding="silent-fallback", visible=vis, solver=e["solver"], gf=e["gf"], nt=e["nt"],
-                                  missing=e["missing"]),
+            findings.append((dict(finding="silent-fallback", solver=e["solver"], gf=e["gf"], missing=e["missing"],
+                                  stage="contract"),
                              f"no usable drift/diffusion was supplied, yet sdeint returned; {what}; {seen}"))
         elif not o["value_error"]:
             drifts.append(f"missing drift/diffusion rejected with {o['exc']} instead of ValueError ({what}; {seen})")
@@ -359,13 +355,10 @@ def check_operators(ctx, scenarios):
                 gp, gd = fsde.g_prod_and_gdg_prod(t, y, v, v)
                 compare(sc["name"], nt, "g_prod_and_gdg_prod[0]", gp, gprod)
                 compare(sc["name"], nt, "g_prod_and_gdg_prod[1]", gd, gdg)
-                # a second vector in the second slot: the two slots must not be mixed up
-                v2 = v.flip(0)
-                gdg2 = _vec([c["gdg"] for c in flat])  # exact only for v; use linearity in v instead
+                # different vectors in the two slots (linearity in v gives the exact value): slots must not be mixed up
                 gp2, gd2 = fsde.g_prod_and_gdg_prod(t, y, v, 2.0 * v)
-                compare(sc["name"], nt, "g_prod_and_gdg_prod[1] (2v)", gd2, 2.0 * gdg2)
-                compare(sc["name"], nt, "g_prod_and_gdg_prod[0] (2v)", gp2, gprod)
-                del v2
+                compare(sc["name"], nt, "g_prod_and_gdg_prod[0] (v, 2v)", gp2, gprod)
+                compare(sc["name"], nt, "g_prod_and_gdg_prod[1] (v, 2v)", gd2, 2.0 * gdg)
                 compare(sc["name"], nt, "dg_ga_jvp_column_sum" + tag, fsde.dg_ga_jvp_column_sum(t, y, A), dgga)
     for sc in scenarios["diagonal"]:
         flat = [c for a in sc["cases"] for c in a]
@@ -409,7 +402,7 @@ def run(ctx):
         wrong = [e for e in entries if e["R"] != e["N"]]                    # one renaming mistake
         rng.shuffle(proper)
         rng.shuffle(wrong)
-        selected = plain + proper[:1500] + wrong[:1000]
+        selected = plain + proper[:4000] + wrong[:2500]
         ctx.exhaustive = False
     ctx.notes["configurations_in_spec"] = len(entries)
     ctx.notes["configurations_executed"] = len(selected)
@@ -453,8 +446,8 @@ def run(ctx):
     ctx.rule = ("configurations are the terminal states of spec/Interface.tla: supplied subset S (32) x renamed subset "
                 "R x names N (proper or one mistake) x solver (8, Milstein also grad-free) x documented (SDE type, noise "
                 "type); each is one real sdeint run (batch 3, d=2, 4 fixed steps, Brownian seed fixed) compared with "
-                "the (f, g) run of the same solver; thorough = all, quick = all un-renamed + 1500 properly renamed + "
-                "1000 mis-renamed sampled with VERIF_SEED. Operators: 5 polynomial diffusions (general d=m=2 x3, "
+                "the (f, g) run of the same solver; thorough = all, quick = all un-renamed + 4000 properly renamed + "
+                "2500 mis-renamed sampled with VERIF_SEED. Operators: 5 polynomial diffusions (general d=m=2 x3, "
                 "scalar, additive) x 30 (y, v, A) points + diagonal d=3 x 6 points, exact values from TLC")
     ctx.assumptions = [
         "user methods describe the same functions: the wrappers compute g_prod / f_and_g / f_and_g_prod from the one "
